@@ -289,6 +289,14 @@ def enumerate_cases(tier):
     grids = grid_settings(tier)
     for i in range(0, len(grids), 6):
         yield {"grid_chunk": [[list(s), list(t), d, sc] for s, t, d, sc in grids[i:i + 6]]}
+    # larger grids in 4 and 5 dimensions under the exactly decidable norms: floating-point sums of many
+    # quotients land next to the boundary there
+    big = [(4, 11, 1), (4, 14, 1), (5, 8, 1), (4, 11, 2), (4, 7, "inf")]
+    if tier != "quick":
+        big += [(4, 19, 1), (4, 21, 1), (5, 11, 1), (6, 6, 1), (4, 14, 2)]
+    for dims, stop, q in big:
+        yield {"grid_one": {"start": [0], "stop": [stop], "dims": dims, "q": q, "graded": True, "reverse": False,
+                            "scalar": True}}
 
 
 @st.composite
